@@ -241,3 +241,226 @@ Proof.
   rewrite !Z.add_0_r, (Z.mod_small cy nv), (Z.mod_small cx n) by lia.
   repeat split; try (f_equal; lia).
 Qed.
+
+Lemma honeycomb_pos_index n : 1 <= n ->
+  let nv := honeycomb_nv n in
+  let L := honeycomb n in
+  z_scale L = 12 * n * nv * hc_D /\
+  forall cx cy, 0 <= cx < n -> 0 <= cy < nv ->
+  let c := cy * n + cx in
+  znth (4 * c) (z_pos L) (0,0)
+    = ((1 + 4 * cx) * (3 * nv * hc_D), ((1 + 12 * cy) * hc_D + hc_delta12) * n) /\
+  znth (4 * c + 1) (z_pos L) (0,0)
+    = ((1 + 4 * cx) * (3 * nv * hc_D), ((5 + 12 * cy) * hc_D + hc_delta12) * n) /\
+  znth (4 * c + 2) (z_pos L) (0,0)
+    = ((3 + 4 * cx) * (3 * nv * hc_D), ((7 + 12 * cy) * hc_D + hc_delta12) * n) /\
+  znth (4 * c + 3) (z_pos L) (0,0)
+    = ((3 + 4 * cx) * (3 * nv * hc_D), ((11 + 12 * cy) * hc_D + hc_delta12) * n).
+Proof.
+  intros Hn nv L. split; [reflexivity|].
+  intros cx cy Hcx Hcy c.
+  pose proof (honeycomb_nv_pos n Hn) as Hnv. fold nv in Hnv.
+  assert (Hc : 0 <= c < nv * n) by (subst c; nia).
+  subst L. unfold honeycomb, honeycomb_pos. cbn [z_pos]. cbv zeta. fold nv.
+  replace (4 * c) with (c * 4 + 0) by lia.
+  replace (c * 4 + 0 + 1) with (c * 4 + 1) by lia.
+  replace (c * 4 + 0 + 2) with (c * 4 + 2) by lia.
+  replace (c * 4 + 0 + 3) with (c * 4 + 3) by lia.
+  rewrite !(znth_flat_map_zrange _ (nv * n) 4 c) by (lia || reflexivity).
+  cbn [map fst snd]. rewrite znth_0, znth_1, znth_2, znth_3.
+  subst c. rewrite !cell_div, !cell_mod by lia. repeat split.
+Qed.
+
+(* ================================================================== (C) square *)
+Lemma square_lengths nx ny : 1 <= nx -> 1 <= ny ->
+  let N := nx * ny in
+  let L := square nx ny in
+  zlen (z_pos L) = N /\ zlen (z_edges L) = 2 * N /\ zlen (z_crossing L) = 2 * N.
+Proof.
+  intros Hx Hy N L. assert (HN : 0 <= N) by (subst N; nia).
+  subst L. unfold square, square_pos, square_edges, square_crossing.
+  cbn [z_pos z_edges z_crossing]. cbv zeta. fold N.
+  rewrite !zlen_app, !zlen_map_zrange by lia. lia.
+Qed.
+
+Lemma square_index nx ny : 1 <= nx -> 1 <= ny ->
+  let N := nx * ny in
+  let L := square nx ny in
+  forall i j, 0 <= i < nx -> 0 <= j < ny ->
+  let c := i * ny + j in
+  znth c (z_pos L) (0,0) = ((2 * i + 1) * ny, (2 * j + 1) * nx) /\
+  z_scale L = 2 * nx * ny /\
+  znth c (z_edges L) (0,0) = (((i - 1) mod nx) * ny + j, c) /\
+  znth c (z_crossing L) (0,0) = (b2z (i =? 0), 0) /\
+  znth (N + c) (z_edges L) (0,0) = (i * ny + (j - 1) mod ny, c) /\
+  znth (N + c) (z_crossing L) (0,0) = (0, b2z (j =? 0)).
+Proof.
+  intros Hx Hy N L i j Hi Hj c.
+  assert (Hc : 0 <= c < N) by (subst c N; nia).
+  assert (Hd : c / ny = i) by (subst c; apply cell_div; lia).
+  assert (Hm : c mod ny = j) by (subst c; apply cell_mod; lia).
+  subst L. unfold square, square_pos, square_edges, square_crossing.
+  cbn [z_pos z_edges z_crossing z_scale]. cbv zeta. fold N.
+  rewrite !znth_app_off by (try apply zlen_map_zrange; lia).
+  rewrite !znth_app_l by (rewrite zlen_map_zrange; lia).
+  rewrite !znth_map_zrange by exact Hc.
+  rewrite Hd, Hm. repeat split.
+Qed.
+
+(* ================================================================== (B) hex_square_oct *)
+Lemma hso_lengths n : 1 <= n ->
+  let N := n * n in
+  let L := hex_square_oct n in
+  zlen (z_pos L) = 6 * N /\ zlen (z_edges L) = 9 * N /\ zlen (z_crossing L) = 9 * N.
+Proof.
+  intros Hn N L. assert (HN : 0 <= N) by (subst N; nia).
+  subst L. unfold hex_square_oct, hso_pos, hso_edges, hso_crossing.
+  cbn [z_pos z_edges z_crossing]. cbv zeta. fold N.
+  rewrite !zlen_app, !zlen_map_zrange by lia.
+  rewrite !zlen_flat_map_zrange with (k := 6) by (lia || reflexivity). lia.
+Qed.
+
+Lemma hso_index n : 1 <= n ->
+  let N := n * n in
+  let L := hex_square_oct n in
+  forall cx cy, 0 <= cx < n -> 0 <= cy < n ->
+  let c := cy * n + cx in
+  (forall k, 0 <= k < 6 ->
+     znth (6 * c + k) (z_edges L) (0,0) = (6 * c + k, 6 * c + (k + 1) mod 6) /\
+     znth (6 * c + k) (z_crossing L) (0,0) = (0,0)) /\
+  znth (6 * N + c) (z_edges L) (0,0) = (6 * c + 4, 6 * (cy * n + (cx + 1) mod n) + 2) /\
+  znth (6 * N + c) (z_crossing L) (0,0) = ((cx + 1) / n, 0) /\
+  znth (7 * N + c) (z_edges L) (0,0) = (6 * (cy * n + (cx + 1) mod n) + 1, 6 * c + 5) /\
+  znth (7 * N + c) (z_crossing L) (0,0) = (- ((cx + 1) / n), 0) /\
+  znth (8 * N + c) (z_edges L) (0,0) = (6 * (((cy + 1) mod n) * n + cx), 6 * c + 3) /\
+  znth (8 * N + c) (z_crossing L) (0,0) = (0, - ((cy + 1) / n)).
+Proof.
+  intros Hn N L cx cy Hcx Hcy c.
+  assert (Hc : 0 <= c < N) by (subst c N; nia).
+  assert (HN : 0 <= N) by lia.
+  subst L. unfold hex_square_oct, hso_edges, hso_crossing.
+  cbn [z_edges z_crossing]. cbv zeta. fold N.
+  match goal with |- context [znth (6 * N + c) (?l0 ++ ?l1 ++ ?l2 ++ ?l3) (0, 0) = (6 * c + 4, _)] =>
+    destruct (znth_blocks l0 l1 l2 l3 (0,0) (6 * N) N c) as (E0 & E1 & E2 & E3);
+      [rewrite zlen_flat_map_zrange with (k := 6) by (lia || reflexivity); lia
+      |now apply zlen_map_zrange|now apply zlen_map_zrange|exact Hc|] end.
+  match goal with |- context [znth (6 * N + c) (?l0 ++ ?l1 ++ ?l2 ++ ?l3) (0, 0) = ((cx + 1) / n, 0)] =>
+    destruct (znth_blocks l0 l1 l2 l3 (0,0) (6 * N) N c) as (X0 & X1 & X2 & X3);
+      [rewrite zlen_flat_map_zrange with (k := 6) by (lia || reflexivity); lia
+      |now apply zlen_map_zrange|now apply zlen_map_zrange|exact Hc|] end.
+  replace (7 * N + c) with (6 * N + N + c) by lia.
+  replace (8 * N + c) with (6 * N + 2 * N + c) by lia.
+  rewrite E1, E2, E3, X1, X2, X3.
+  split.
+  - intros k Hk. rewrite E0, X0 by lia.
+    replace (6 * c + k) with (c * 6 + k) by lia.
+    rewrite !(znth_flat_map_zrange _ N 6 c) by (lia || reflexivity).
+    assert (Hk' : k = 0 \/ k = 1 \/ k = 2 \/ k = 3 \/ k = 4 \/ k = 5) by lia.
+    destruct Hk' as [-> | [-> | [-> | [-> | [-> | ->]]]]];
+      (split; [|reflexivity]).
+    + rewrite znth_0. change ((0 + 1) mod 6) with 1. f_equal; lia.
+    + rewrite znth_1. change ((1 + 1) mod 6) with 2. f_equal; lia.
+    + rewrite znth_2. change ((2 + 1) mod 6) with 3. f_equal; lia.
+    + rewrite znth_3. change ((3 + 1) mod 6) with 4. f_equal; lia.
+    + rewrite znth_4. change ((4 + 1) mod 6) with 5. f_equal; lia.
+    + rewrite znth_5. change ((5 + 1) mod 6) with 0. f_equal; lia.
+  - rewrite !znth_map_zrange by exact Hc.
+    rewrite !hso_next_direction_eq. subst c.
+    rewrite !next_cell_number_spec by lia.
+    rewrite !hc_cross_h_spec, !hc_cross_v_spec by lia.
+    rewrite !Z.add_0_r, (Z.mod_small cy n), (Z.mod_small cx n) by lia.
+    repeat split; try (f_equal; lia).
+Qed.
+
+Lemma hso_pos_index n : 1 <= n ->
+  let L := hex_square_oct n in
+  z_scale L = 100 * n /\
+  forall cx cy, 0 <= cx < n -> 0 <= cy < n ->
+  let c := cy * n + cx in
+  znth (6 * c) (z_pos L) (0,0) = (50 + 100 * cx, 17 + 100 * cy) /\
+  znth (6 * c + 1) (z_pos L) (0,0) = (20 + 100 * cx, 35 + 100 * cy) /\
+  znth (6 * c + 2) (z_pos L) (0,0) = (20 + 100 * cx, 65 + 100 * cy) /\
+  znth (6 * c + 3) (z_pos L) (0,0) = (50 + 100 * cx, 82 + 100 * cy) /\
+  znth (6 * c + 4) (z_pos L) (0,0) = (80 + 100 * cx, 65 + 100 * cy) /\
+  znth (6 * c + 5) (z_pos L) (0,0) = (80 + 100 * cx, 35 + 100 * cy).
+Proof.
+  intros Hn L. split; [reflexivity|].
+  intros cx cy Hcx Hcy c.
+  assert (Hc : 0 <= c < n * n) by (subst c; nia).
+  subst L. unfold hex_square_oct, hso_pos. cbn [z_pos]. cbv zeta.
+  replace (6 * c) with (c * 6 + 0) by lia.
+  replace (c * 6 + 0 + 1) with (c * 6 + 1) by lia.
+  replace (c * 6 + 0 + 2) with (c * 6 + 2) by lia.
+  replace (c * 6 + 0 + 3) with (c * 6 + 3) by lia.
+  replace (c * 6 + 0 + 4) with (c * 6 + 4) by lia.
+  replace (c * 6 + 0 + 5) with (c * 6 + 5) by lia.
+  rewrite !(znth_flat_map_zrange _ (n * n) 6 c) by (lia || reflexivity).
+  cbn [map fst snd]. rewrite znth_0, znth_1, znth_2, znth_3, znth_4, znth_5.
+  subst c. rewrite !cell_div, !cell_mod by lia. repeat split.
+Qed.
+
+(* ================================================================== (D) polygon / wheel / ladder *)
+Lemma polygon_edges_index n : 0 <= n ->
+  zlen (polygon_edges n) = n /\
+  forall i, 0 <= i < n -> znth i (polygon_edges n) (0,0) = (i, (i + 1) mod n).
+Proof.
+  intros Hn. unfold polygon_edges. split; [now apply zlen_map_zrange|].
+  intros i Hi. now rewrite znth_map_zrange.
+Qed.
+
+Lemma single_plaquette_index s ps n : 0 <= n ->
+  let L := single_plaquette s ps n in
+  zlen (z_edges L) = n /\ zlen (z_crossing L) = n /\
+  forall i, 0 <= i < n ->
+    znth i (z_edges L) (0,0) = (i, (i + 1) mod n) /\ znth i (z_crossing L) (0,0) = (0,0).
+Proof.
+  intros Hn L. subst L. unfold single_plaquette. cbn [z_edges z_crossing].
+  destruct (polygon_edges_index n Hn) as (Hl & Hi).
+  split; [exact Hl|]. split; [now apply zlen_map_zrange|].
+  intros i H. split; [now apply Hi|]. now rewrite znth_map_zrange.
+Qed.
+
+Lemma higher_coordination_index s ps n : 0 <= n -> zlen ps = n ->
+  let L := higher_coordination s ps n in
+  zlen (z_pos L) = n + 1 /\ zlen (z_edges L) = 2 * n /\ zlen (z_crossing L) = 2 * n /\
+  znth n (z_pos L) (0,0) = (s / 2, s / 2) /\
+  (forall i, 0 <= i < n -> znth i (z_pos L) (0,0) = znth i ps (0,0)) /\
+  forall i, 0 <= i < n ->
+    znth i (z_edges L) (0,0) = (i, (i + 1) mod n) /\
+    znth (n + i) (z_edges L) (0,0) = (i, n) /\
+    znth i (z_crossing L) (0,0) = (0,0) /\
+    znth (n + i) (z_crossing L) (0,0) = (0,0).
+Proof.
+  intros Hn Hps L. subst L. unfold higher_coordination. cbn [z_pos z_edges z_crossing].
+  destruct (polygon_edges_index n Hn) as (Hl & Hpi).
+  rewrite !zlen_app, Hl, Hps, !zlen_map_zrange by lia.
+  split; [reflexivity|]. split; [lia|]. split; [lia|]. split.
+  - rewrite znth_app_r by lia. rewrite Hps, Z.sub_diag. reflexivity.
+  - split; [intros i Hi; apply znth_app_l; lia|].
+    intros i Hi.
+    rewrite !znth_app_off by (try apply zlen_map_zrange; lia).
+    rewrite !znth_app_l by (rewrite ?zlen_map_zrange by lia; lia).
+    rewrite Hpi, !znth_map_zrange by lia. repeat split.
+Qed.
+
+Lemma ladder_index n : 0 <= n ->
+  zlen (ladder_edges n) = 3 * n /\ zlen (ladder_crossing n) = 3 * n /\ zlen (ladder_pos n) = 2 * n /\
+  forall i, 0 <= i < n ->
+    znth i (ladder_edges n) (0,0) = (i, (i + 1) mod n) /\
+    znth (n + i) (ladder_edges n) (0,0) = (i + n, (i + 1) mod n + n) /\
+    znth (2 * n + i) (ladder_edges n) (0,0) = (i, i + n) /\
+    znth i (ladder_crossing n) (0,0) = (b2z (i =? n - 1), 0) /\
+    znth (n + i) (ladder_crossing n) (0,0) = (b2z (i =? n - 1), 0) /\
+    znth (2 * n + i) (ladder_crossing n) (0,0) = (0,0) /\
+    znth i (ladder_pos n) (0,0) = (n - 1 + 18 * i, 6 * (n - 1)) /\
+    znth (n + i) (ladder_pos n) (0,0) = (n - 1 + 18 * i, 14 * (n - 1)).
+Proof.
+  intros Hn. unfold ladder_edges, ladder_crossing, ladder_pos. cbv zeta.
+  rewrite !zlen_app, !zlen_map_zrange by lia.
+  split; [lia|]. split; [lia|]. split; [lia|].
+  intros i Hi.
+  replace (2 * n + i) with (n + (n + i)) by lia.
+  rewrite !znth_app_off by (try apply zlen_map_zrange; lia).
+  rewrite !znth_app_l by (rewrite zlen_map_zrange by lia; lia).
+  rewrite !znth_map_zrange by lia. repeat split.
+Qed.
